@@ -246,6 +246,25 @@ def invariant_obligations(ctx, facts, rule=None):
             probe = ct[0] == "call" and ct[1].endswith("::to_lowercase") and ct[2] == (("arg", 2),)
         ok = stored and probe
     ctx.ob(R("CMP-LOWER"), "partial_cmp = Some(self.0.chars().cmp(other.chars().flat_map(to_lowercase)))", ok, fn=PC, site=fn_site(facts, PC), detail=det)
+    # equality of keys (used by the derived PartialEq of Qualifiers / PurlParts / GenericPurl) must be the comparator's equality
+    pe = [k for k, f in facts.fns.items() if f.get("impl_trait_def") == "std::cmp::PartialEq" and f.get("impl_self") == "qualifiers::QualifierKey" and f.get("name") == "eq" and not f.get("derived")]
+    if len(pe) == 1:
+        et = norm(facts.body(pe[0]).resolve_local(0))
+        okeq = False
+        if et[0] == "call" and et[1].endswith("::unwrap_or_default") and et[2][0][0] == "call" and et[2][0][1] == "std::option::Option::<T>::map":
+            src, clo = et[2][0][2]
+            if src[0] == "call" and src[1] in (PC, "std::cmp::PartialOrd::partial_cmp") and src[2] == (("arg", 1), ("arg", 2)) and clo[0] == "closure":
+                ct = norm(facts.body(clo[1]).resolve_local(0))
+                okeq = ct[0] == "call" and ct[1] == "std::cmp::Ordering::is_eq"
+        if et[0] == "call" and et[1] == "std::iter::Iterator::eq" and len(et[2]) == 2:
+            a, b_ = et[2]
+            okeq = a[0] == "call" and a[1].endswith("::chars") and models.field_path(a[2][0]) == "0" and b_[0] == "call" and b_[1] == "std::iter::Iterator::flat_map" and b_[2][0][0] == "call" and b_[2][0][2][0] == ("arg", 2)
+        ctx.ob(R("CMP-LOWER"), "QualifierKey == S  is  partial_cmp(..) == Some(Equal)  (whole-string, case-insensitive; no prefix or length shortcut)", okeq, fn=pe[0], site=fn_site(facts, pe[0]), detail=nshow(et)[:200])
+    elif pe:
+        ctx.ob(R("CMP-LOWER"), "one hand-written PartialEq<S> for QualifierKey", False, detail=str(pe))
+    else:
+        der = [im for im in facts.impls if im.get("self_adt") == "qualifiers::QualifierKey" and im.get("trait_def") == "std::cmp::PartialEq" and im["derived"]]
+        ctx.ob(R("CMP-LOWER"), "QualifierKey equality is hand-written over partial_cmp or derived", bool(der), detail="")
     sclos = facts.closures_of(SEARCH)
     oks = False
     if len(sclos) == 1:
@@ -305,12 +324,21 @@ def rule_derives(ctx):
         ctx.ob("DERIVES", "%s for QualifierKey is derived" % tr.split("::")[-1], len(ims) == 1 and ims[0]["derived"], fn="qualifiers::QualifierKey", detail="")
 
 
+def rule_witness(ctx):
+    if ctx.tier == 'thorough':
+        from . import witness
+        witness.run_witnesses(ctx)
+
+
+THOROUGH_FS = ["pt", "none", "serde"]
+
 RULES = [
+    ("WITNESS", rule_witness, 0),
     ("MUTATORS", rule_invariant, 40),
     ("IDX", lambda ctx: None, 17),
     ("KEYCTOR", lambda ctx: None, 6),
     ("KEYCHECK", lambda ctx: None, 6),
-    ("CMP-LOWER", lambda ctx: None, 2),
+    ("CMP-LOWER", lambda ctx: None, 3),
     ("KEYREF", lambda ctx: None, 4),
     ("DUP", rule_dup, 2),
     ("DERIVES", rule_derives, 8),
